@@ -170,3 +170,120 @@ def nearest_neighbor(seqs: Seq(Str, "list"), max_edits: Int, max_returns: NoneTy
                                                          max_custom_distance, output_type, seqs2))
     delegates("pyrepseq.nn.symdel", seqs=seqs, max_edits=max_edits, max_returns=max_returns, n_cpu=n_cpu,
               custom_distance=custom_distance, max_custom_distance=max_custom_distance, output_type=output_type, seqs2=seqs2)
+
+
+# ---- hash_based: LookupDB over the exact edit ball -----------------------------------------------------------
+
+@predicate
+def within(query, y, is_hamming, d):
+    # y is in the radius-d ball of query (strings over the amino-acid alphabet)
+    return (over_alphabet(y, "ACDEFGHIKLMNPQRSTVWY")
+            and ((len(y) == len(query) and ham(query, y) <= d) if is_hamming else lev(query, y) <= d))
+
+
+@predicate
+def ball_value(query, y, is_hamming):
+    return ham(query, y) if is_hamming else lev(query, y)
+
+
+@contract("pyrepseq.nn._generate_neighbors", props=["C03", "C04", "C07"], scope="generate_neighbors")
+def _generate_neighbors(query: Str, max_edits: Nat, is_hamming: OneOf(Const(False), Const(True))) -> DictT(Str, Int):
+    requires(over_alphabet(query, "ACDEFGHIKLMNPQRSTVWY"))
+    raises(None)
+    # rounds: after round d the keys are exactly the strings within distance d, valued by their distance
+    loop("loop1", "inv", modifies={"ans": DictT(Str, Int)},
+         inv=[forall(TStr, lambda y: (y in ans) == within(query, y, is_hamming, _i)),
+              forall(TStr, lambda y: implies(y in ans, ans[y] == ball_value(query, y, is_hamming)))])
+    # within a round: keys = keys at the start of the round + one-edit variants of the processed ones
+    loop("loop2", "inv", elem=Str, modifies={"ans": DictT(Str, Int)},
+         inv=[forall(TStr, lambda y: (y in ans) == ((y in ans_0) or exists(TStr, lambda s: (s in _done) and (
+                  n1h(s, "ACDEFGHIKLMNPQRSTVWY", y) if is_hamming else n1(s, "ACDEFGHIKLMNPQRSTVWY", y)),
+                  hints=[seq, ham_pred(query, y) if is_hamming else lev_pred(query, y)]))),
+              forall(TStr, lambda y: implies(y in ans, ans[y] == (ans_0[y] if y in ans_0 else edit_distance)))])
+    loop("loop3", "inv", elem=Str, modifies={"ans": DictT(Str, Int)},
+         inv=[forall(TStr, lambda y: (y in ans) == ((y in ans_0) or (y in _done))),
+              forall(TStr, lambda y: implies(y in ans, ans[y] == (ans_0[y] if y in ans_0 else edit_distance)))])
+    ensures(forall(TStr, lambda y: (y in result) == within(query, y, is_hamming, max_edits)), name="post[keys = ball]")
+    ensures(forall(TStr, lambda y: implies(y in result, result[y] == ball_value(query, y, is_hamming))), name="post[values = distance]")
+
+
+@predicate
+def lookup_index_ok(d, seqs, upto):
+    # d maps each sequence to the strictly increasing list of exactly the positions (< upto) holding it
+    return (forall(TStr, lambda v: implies(v in d, len(d[v]) >= 1 and forall(TInt, lambda q: implies(
+                0 <= q and q < len(d[v]), 0 <= d[v][q] and d[v][q] < upto and seqs[d[v][q]] == v))))
+            and forall(TStr, TInt, TInt, lambda v, q, q2: implies(v in d and 0 <= q and q < q2 and q2 < len(d[v]), d[v][q] < d[v][q2]))
+            and forall(TInt, lambda p: implies(0 <= p and p < upto,
+                                               seqs[p] in d and exists(TInt, lambda q: 0 <= q and q < len(d[seqs[p]]) and d[seqs[p]][q] == p,
+                                                                       hints=[len(d[seqs[p]]) - 1]))))
+
+
+@contract("pyrepseq.nn.LookupDB.__init__", props=["C03", "C04"], scope="lookupdb_init")
+def LookupDB__init__(self: Inst("LookupDB"), seqs: OneOf(Seq(Str, "list"), Seq(Str, "ndarray"))):
+    raises(None)
+    field("seq_dict", DictT(Str, Seq(Nat)))
+    loop("loop1", "inv", modifies={"self.seq_dict": DictT(Str, Seq(Nat))},
+         inv=[lookup_index_ok(self.seq_dict, seqs, _i)])
+    sets("seqs", seqs)
+    ensures(lookup_index_ok(self.seq_dict, seqs, len(seqs)), name="post[index]")
+    skolem_ensures(forall(TInt, lambda p: implies(
+        0 <= p and p < len(seqs),
+        0 <= vd_pos(self, seqs[p], p) and vd_pos(self, seqs[p], p) < len(self.seq_dict[seqs[p]])
+        and self.seq_dict[seqs[p]][vd_pos(self, seqs[p], p)] == p)))
+
+
+@predicate
+def all_over(seqs, alphabet):
+    return forall(TInt, lambda p: implies(0 <= p and p < len(seqs), over_alphabet(seqs[p], alphabet)))
+
+
+@contract("pyrepseq.nn.LookupDB.lookup", props=["C03", "C04", "C07", "C10", "C14"], scope="lookupdb_lookup")
+def LookupDB_lookup(self: Inst("LookupDB", seqs=Seq(Str, "ndarray"), seq_dict=DictT(Str, Seq(Nat))),
+                    seqs2: OneOf(Seq(Str, "list"), Seq(Str, "ndarray")), max_edits: Nat,
+                    pdist_mode: OneOf(Const(False), Const(True)),
+                    custom_distance: OneOf(NoneType, Const("hamming"), FnT(Str, Str, returns=RealT(lo=0), symmetric=True, zero_diag=True)),
+                    max_custom_distance: OneOf(Const(float("inf")), RealT(lo=0)),
+                    output_type: OneOf(Const("triplets"), Const("coo_matrix")), progress: Const(False)):
+    requires(lookup_index_ok(self.seq_dict, self.seqs, len(self.seqs)))
+    requires(forall(TInt, lambda p: implies(
+        0 <= p and p < len(self.seqs),
+        0 <= vd_pos(self, self.seqs[p], p) and vd_pos(self, self.seqs[p], p) < len(self.seq_dict[self.seqs[p]])
+        and self.seq_dict[self.seqs[p]][vd_pos(self, self.seqs[p], p)] == p)), name="index witness")
+    # the property's alphabet restriction: the edit ball is enumerated over the 20 amino-acid letters
+    requires(all_over(self.seqs, "ACDEFGHIKLMNPQRSTVWY") and all_over(seqs2, "ACDEFGHIKLMNPQRSTVWY"))
+    raises(None)
+    ensures(forall_in(triplets_of(result), lambda t: 0 <= t[0] and t[0] < len(seqs2) and 0 <= t[1] and t[1] < len(self.seqs)
+                      and (not pdist_mode or t[0] != t[1])
+                      and is_neighbor(seqs2[t[0]], self.seqs[t[1]], custom_distance, max_edits, max_custom_distance)
+                      and t[2] == neighbor_value(seqs2[t[0]], self.seqs[t[1]], custom_distance)), name="post[sound]")
+    ensures(forall(TInt, TInt, lambda q, r: implies(
+        0 <= q and q < len(seqs2) and 0 <= r and r < len(self.seqs) and (not pdist_mode or q != r)
+        and is_neighbor(seqs2[q], self.seqs[r], custom_distance, max_edits, max_custom_distance),
+        member(triplets_of(result), (q, r, neighbor_value(seqs2[q], self.seqs[r], custom_distance)),
+               q, self.seqs[r], vd_pos(self, self.seqs[r], r)))), name="post[complete]")
+    ensures(no_duplicates(triplets_of(result), lambda t: (t[0], t[1])), name="post[each pair once]")
+    ensures(output_kind(result) == output_type and
+            (output_type == "triplets" or output_shape(result) == (len(self.seqs), len(seqs2))), name="post[output form]")
+    returns(search_output(neighbor_triplets(
+        seqs2, self.seqs, lambda a, b: is_neighbor(a, b, custom_distance, max_edits, max_custom_distance),
+        lambda a, b: neighbor_value(a, b, custom_distance), pdist_mode), output_type, self.seqs, seqs2), assume_only=True)
+
+
+@contract("pyrepseq.nn.hash_based", props=["C04", "C07", "C10", "C14"], scope="search_calls_aa")
+def hash_based(seqs: OneOf(Seq(Str, "list"), Seq(Str, "ndarray"), SeriesT(Str, "int")), max_edits: Int,
+               max_returns: NoneType, n_cpu: Int,
+               custom_distance: OneOf(NoneType, Const("hamming"), FnT(Str, Str, returns=RealT(lo=0), symmetric=True, zero_diag=True)),
+               max_custom_distance: OneOf(Const(float("inf")), RealT(lo=0)),
+               output_type: OneOf(Const("triplets"), Const("coo_matrix")), progress: Const(False)):
+    requires(all_over(seqs, "ACDEFGHIKLMNPQRSTVWY"))
+    raises("AssertionError", when=not valid_search_args(seqs, max_edits, max_returns, n_cpu, custom_distance,
+                                                         max_custom_distance, output_type, None))
+    # the same triplet set as the default engine (symdel's specification), in the requested form
+    ensures(bag_equal(triplets_of(result), neighbor_triplets(
+        seqs, seqs, lambda a, b: is_neighbor(a, b, custom_distance, max_edits, max_custom_distance),
+        lambda a, b: neighbor_value(a, b, custom_distance), True)) and is_setlike(triplets_of(result)), name="post[= default search]")
+    ensures(output_kind(result) == output_type and (output_type == "triplets" or output_shape(result) == (len(seqs), len(seqs))),
+            name="post[output form]")
+    returns(search_output(neighbor_triplets(
+        seqs, seqs, lambda a, b: is_neighbor(a, b, custom_distance, max_edits, max_custom_distance),
+        lambda a, b: neighbor_value(a, b, custom_distance), True), output_type, seqs, None), assume_only=True)
